@@ -979,20 +979,27 @@ def refDecodeField (ps : Nat) (bs : Bytes) (ns : NS) : Field → Option Val
 /-- reference decoding of a fixed-size definition from the bytes starting at it: every member is
     decoded from the bytes at its ABI offset -/
 def refDecodeDef (ps : Nat) (bs : Bytes) : Def → Option Val
-  | .mk kind packed fs =>
+  | .mk .typedef _ fs =>
+    match refMembers ps fs with
+    | none => none
+    | some _ =>
+      (match fs with
+       | f :: _ => refDecodeField ps bs [] f
+       | [] => none)
+  | .mk .struct packed fs =>
     match refMembers ps fs with
     | none => none
     | some ms =>
-      let L := place (kind == .union) packed ms
-      match kind with
-      | .typedef =>
-        (match fs with
-         | f :: _ => refDecodeField ps bs [] f
-         | [] => none)
-      | _ =>
-        match refDecodeFields ps bs fs L.offs [] with
-        | some ns => some (.inst ns L.size)
-        | none => none
+      (match refDecodeFields ps bs fs (place false packed ms).offs [] with
+       | some ns => some (.inst ns (place false packed ms).size)
+       | none => none)
+  | .mk .union packed fs =>
+    match refMembers ps fs with
+    | none => none
+    | some ms =>
+      (match refDecodeFields ps bs fs (place true packed ms).offs [] with
+       | some ns => some (.inst ns (place true packed ms).size)
+       | none => none)
 def refDecodeFields (ps : Nat) (bs : Bytes) : List Field → List Nat → NS → Option NS
   | f :: fs, o :: os, ns =>
     match refDecodeField ps (bs.drop o) ns f with
